@@ -123,6 +123,22 @@ func c02TagCounts(s *Store, lo, hi int64) (map[int64]int64, error) {
 
 var c02TagSeq int64 = 7000000
 
+// c02MakeLeader moves leadership to node x and waits for the cluster to settle.
+func c02MakeLeader(c *vCluster, x *vcNode) bool {
+	for i := 0; i < 4; i++ {
+		ld := c.leader(20 * time.Second)
+		if ld == nil {
+			return false
+		}
+		if ld == x {
+			break
+		}
+		ld.s.Stepdown(true, x.s.ID())
+		time.Sleep(200 * time.Millisecond)
+	}
+	return c.leader(20*time.Second) == x && c.settle(x, 15*time.Second)
+}
+
 func c02DeposedWrites(w *vWriter, in c02WriteIn, g *c02Gated) {
 	key := vJSON(in)
 	tags := []string{"deposed-writes", fmt.Sprintf("k=%d", in.K), "entry=" + in.Entry}
@@ -133,20 +149,7 @@ func c02DeposedWrites(w *vWriter, in c02WriteIn, g *c02Gated) {
 	c := g.c
 	g0 := c.nodes[2] // the node with the long lease
 	others := c.nodes[:2]
-	// make it the leader
-	for i := 0; i < 4; i++ {
-		ld := c.leader(20 * time.Second)
-		if ld == nil {
-			inconcl("no leader")
-			return
-		}
-		if ld == g0 {
-			break
-		}
-		ld.s.Stepdown(true, g0.s.ID())
-		time.Sleep(200 * time.Millisecond)
-	}
-	if ld := c.leader(20 * time.Second); ld != g0 || !c.settle(g0, 15*time.Second) {
+	if !c02MakeLeader(c, g0) {
 		inconcl("could not make the long-lease node the settled leader")
 		return
 	}
@@ -249,6 +252,165 @@ func c02DeposedWrites(w *vWriter, in c02WriteIn, g *c02Gated) {
 	}
 }
 
+// ---------------------------------------------------------------- a read on the old leader after a transfer
+
+type c02TransferIn struct {
+	Kind  string `json:"kind"` // "transfer-read"
+	Entry string `json:"entry"` // query | request
+	Round int    `json:"round"`
+}
+
+var c02RegKey int64 = 900
+
+// c02TransferRead: the leader (long lease) serves a linearizable read through the read-index path,
+// is then made deaf and told to hand leadership to another node; that node is elected at once
+// (TimeoutNow: followers vote although they still have a leader) and acknowledges a write; a
+// linearizable read is then sent to the old leader, which has heard nothing of all this.
+func c02TransferRead(w *vWriter, in c02TransferIn, g *c02Gated) {
+	key := vJSON(in)
+	tags := []string{"transfer-read", "entry=" + in.Entry}
+	inconcl := func(why string) {
+		g.heal()
+		w.Emit(VCase{Input: in, Key: key, Inconcl: why, Tags: tags})
+	}
+	c := g.c
+	g0, n1 := c.nodes[2], c.nodes[0]
+	if !c02MakeLeader(c, g0) {
+		inconcl("could not make the long-lease node the settled leader")
+		return
+	}
+	old := g0.s
+	ctx := context.Background()
+	c02RegKey++
+	k := c02RegKey
+	if err := vcExec(old, fmt.Sprintf("INSERT OR REPLACE INTO reg(k, v) VALUES(%d, 1)", k)); err != nil {
+		inconcl("first write failed: " + err.Error())
+		return
+	}
+	read := func(s *Store) (int64, proto.ConsistencyLevel, uint64, error) {
+		sql := fmt.Sprintf("SELECT v FROM reg WHERE k=%d", k)
+		if in.Entry == "request" {
+			eqr := executeQueryRequestFromStrings([]string{sql}, proto.ConsistencyLevel_LINEARIZABLE, false, false, false)
+			eqr.LinearizableTimeout = int64(20 * time.Second)
+			rs, _, idx, err := s.Request(ctx, eqr)
+			if err != nil {
+				return 0, 0, 0, err
+			}
+			lvl := proto.ConsistencyLevel_LINEARIZABLE
+			if idx != 0 {
+				lvl = proto.ConsistencyLevel_STRONG
+			}
+			if len(rs) == 1 && rs[0].GetQ() != nil && len(rs[0].GetQ().Values) == 1 {
+				return rs[0].GetQ().Values[0].Parameters[0].GetI(), lvl, idx, nil
+			}
+			return 0, lvl, idx, nil
+		}
+		qr := queryRequestFromString(sql, false, false, false)
+		qr.Level = proto.ConsistencyLevel_LINEARIZABLE
+		qr.LinearizableTimeout = int64(20 * time.Second)
+		rows, lvl, idx, err := s.Query(ctx, qr)
+		if err != nil {
+			return 0, 0, 0, err
+		}
+		if len(rows) == 1 && len(rows[0].Values) == 1 {
+			return rows[0].Values[0].Parameters[0].GetI(), lvl, idx, nil
+		}
+		return 0, lvl, idx, nil
+	}
+	// the term's first read (upgraded), then one through the read-index path
+	if _, _, _, err := read(old); err != nil {
+		inconcl("first read failed: " + err.Error())
+		return
+	}
+	tPrime := time.Now()
+	v, lvl, _, err := read(old)
+	if err != nil || lvl != proto.ConsistencyLevel_LINEARIZABLE || v != 1 {
+		inconcl(fmt.Sprintf("second read was not a plain linearizable read of 1: v=%d level=%v err=%v", v, lvl, err))
+		return
+	}
+	if !c.settle(g0, 10*time.Second) {
+		inconcl("not settled before the transfer")
+		return
+	}
+	// deaf, hand over, successor writes
+	g.gates[g0].deaf.Store(true)
+	term := old.raft.CurrentTerm()
+	old.Stepdown(false, n1.s.ID())
+	elected := false
+	for i := 0; i < 3000 && !elected; i++ {
+		elected = n1.s.raft.State() == raft.Leader
+		if !elected {
+			time.Sleep(time.Millisecond)
+		}
+	}
+	if !elected {
+		inconcl("the transfer target was not elected")
+		return
+	}
+	if err := vcExec(n1.s, fmt.Sprintf("INSERT OR REPLACE INTO reg(k, v) VALUES(%d, 2)", k)); err != nil {
+		inconcl("the new leader's write was not acknowledged: " + err.Error())
+		return
+	}
+	elapsed := time.Since(tPrime)
+	window := old.raftConfig().LeaderLeaseTimeout / 2 // the longest a cached confirmation could plausibly be trusted
+	tags = append(tags, fmt.Sprintf("since-last-verified-read-ms=%d", elapsed.Milliseconds()))
+	if elapsed > window/3 {
+		inconcl(fmt.Sprintf("transfer and write took %v, more than a third of half the lease (%v)", elapsed, window))
+		return
+	}
+	if old.raft.State() != raft.Leader || old.raft.CurrentTerm() != term {
+		inconcl("the old leader had already heard of the new term")
+		return
+	}
+	// the read on the old leader
+	pre := vcLinBefore(old)
+	type res struct {
+		v   int64
+		lvl proto.ConsistencyLevel
+		err error
+	}
+	ch := make(chan res, 1)
+	st := time.Now()
+	go func() {
+		v, lvl, _, err := read(old)
+		ch <- res{v, lvl, err}
+	}()
+	var r res
+	early := false
+	select {
+	case r = <-ch:
+		early = true
+	case <-time.After(time.Second):
+		// correct code is waiting for heartbeat replies that cannot arrive; let it hear of the new term
+		g.heal()
+		select {
+		case r = <-ch:
+		case <-time.After(40 * time.Second):
+			inconcl("the read on the old leader did not return after the heal")
+			return
+		}
+	}
+	lat := time.Since(st)
+	g.heal()
+	coq, verified, verifiedOK := vcLinAfter(old, pre, r.err)
+	result := c02Result(r.err)
+	cs := VCase{Input: in, Key: key, Tags: append(tags, "result="+result, fmt.Sprintf("returned-before-heal=%v", early)), Nontrivial: true,
+		Coq: fmt.Sprintf("CTrace {| c_obs := %s; c_result := %s; c_verified := %s |}", coq, result, coqBool(verified))}
+	switch {
+	case r.err == nil && r.v != 2:
+		cs.Sig = "C02:stale-linearizable-read-after-transfer"
+		cs.OracleFail = fmt.Sprintf("linearizable read on the old leader returned v=%d after %v (%v after its last verified read; level %v, own leadership check: %v) although the new leader had acknowledged v=2 before the read began",
+			r.v, lat.Round(time.Millisecond), elapsed.Round(time.Millisecond), r.lvl, verifiedOK)
+	case r.err == nil && r.lvl == proto.ConsistencyLevel_LINEARIZABLE && !verifiedOK:
+		cs.Sig = "C02:linearizable-read-without-leadership-check"
+		cs.OracleFail = "linearizable read served locally without a successful VerifyLeader of its own"
+	}
+	w.Emit(cs)
+	if ld := c.leader(20 * time.Second); ld != nil {
+		c.settle(ld, 15*time.Second)
+	}
+}
+
 // c02TagAudit: after a workload, every tag at most once, acknowledged ones exactly once.
 func c02TagAudit(s *Store, ops []c02Op) (string, string) {
 	if len(ops) == 0 {
@@ -289,13 +451,16 @@ func c02TagAudit(s *Store, ops []c02Op) (string, string) {
 	return "", strings.TrimSpace(fmt.Sprintf("acked=%d applied=%d issued=%d", acked, applied, len(ops)))
 }
 
-func c02RunDeposedWrites(t *testing.T, w *vWriter, ins []c02WriteIn) {
+func c02RunDeposedWrites(t *testing.T, w *vWriter, ins []c02WriteIn, trs []c02TransferIn) {
 	g := c02NewGatedLease(t, true)
 	if g == nil {
 		w.Emit(VCase{Input: c02WriteIn{Kind: "deposed-writes"}, Key: "gated-long-lease-cluster", Inconcl: "gated cluster did not start"})
 		return
 	}
 	defer g.c.close()
+	for _, in := range trs {
+		c02TransferRead(w, in, g)
+	}
 	for _, in := range ins {
 		c02DeposedWrites(w, in, g)
 	}
